@@ -97,6 +97,8 @@ class IsoDepInitiator(object):
                         raise nfc.clf.TransmissionError
                     while data[0] & 0b11111110 == 0b11110010:  # WTX
                         log.debug("ISO-DEP waiting time extension")
+                        if len(data) < 2:
+                            raise nfc.clf.ProtocolError("WTX without WTXM")
                         wtx_timeout = (data[1] & 0x3F) * self.fwt
                         data = self.clf.exchange(data, wtx_timeout)
                         if len(data) == 0:
@@ -153,6 +155,8 @@ class IsoDepInitiator(object):
                         raise nfc.clf.TransmissionError
                     while data[0] & 0b11111110 == 0b11110010:  # WTX
                         log.debug("ISO-DEP waiting time extension")
+                        if len(data) < 2:
+                            raise nfc.clf.ProtocolError("WTX without WTXM")
                         wtx_timeout = (data[1] & 0x3F) * self.fwt
                         data = self.clf.exchange(data, wtx_timeout)
                         if len(data) == 0:
